@@ -317,6 +317,16 @@ func genTable(r *rng.R, o Opts) *Spec {
 				}
 			}
 		}
+		if r.Chance(1, 3) {
+			// a true rectangle: every row as wide as the first (at least one cell)
+			w := first
+			if w == 0 {
+				w = 1
+			}
+			for i := range lens {
+				lens[i] = w
+			}
+		}
 		for i := 0; i < rows; i++ {
 			row := &Spec{K: List}
 			for j := 0; j < lens[i]; j++ {
